@@ -22,6 +22,7 @@ import (
 	"context"
 	"database/sql"
 	"fmt"
+	"strings"
 	"time"
 
 	"github.com/cockroachdb/errors"
@@ -93,6 +94,12 @@ func (s *MySQLMetaStore) init(ctx context.Context, dataSourceName string, rootPa
 }
 
 var _ api.MetaStoreFactory = (*MySQLMetaStore)(nil)
+
+// likePrefixPattern returns the LIKE pattern that matches exactly the keys starting with prefix:
+// the pattern characters of the prefix itself are escaped (MySQL's default escape character is '\').
+func likePrefixPattern(prefix string) string {
+	return strings.NewReplacer(`\`, `\\`, `%`, `\%`, `_`, `\_`).Replace(prefix) + "%"
+}
 
 func (s *MySQLMetaStore) GetTaskInfoMetaStore(ctx context.Context) api.MetaStore[*meta.TaskInfo] {
 	return s.taskInfoStore
@@ -277,7 +284,8 @@ func (m *TaskInfoMysqlStore) Delete(ctx context.Context, metaObj *meta.TaskInfo,
 	if taskID == "" {
 		return errors.New("task id is empty")
 	}
-	sqlStr := "DELETE FROM task_info WHERE task_id = ?"
+	sqlStr := "DELETE FROM task_info WHERE task_info_key = ?"
+	taskInfoKey := getTaskInfoKey(m.rootPath, taskID)
 	var err error
 	defer func() {
 		if err != nil {
@@ -297,13 +305,13 @@ func (m *TaskInfoMysqlStore) Delete(ctx context.Context, metaObj *meta.TaskInfo,
 			return err
 		}
 		defer stmt.Close()
-		_, err = stmt.ExecContext(cancelCtx, taskID)
+		_, err = stmt.ExecContext(cancelCtx, taskInfoKey)
 		if err != nil {
 			return err
 		}
 		return nil
 	}
-	_, err = m.db.ExecContext(cancelCtx, sqlStr, taskID)
+	_, err = m.db.ExecContext(cancelCtx, sqlStr, taskInfoKey)
 	if err != nil {
 		return err
 	}
@@ -482,8 +490,8 @@ func (m *TaskCollectionPositionMysqlStore) Delete(ctx context.Context, metaObj *
 	if taskID == "" {
 		return errors.New("task id is empty")
 	}
-	sqlStr := "DELETE FROM task_position WHERE task_id = ?"
-	var sqlArgs []any = []any{taskID}
+	sqlStr := "DELETE FROM task_position WHERE task_id = ? AND task_position_key LIKE ?"
+	var sqlArgs []any = []any{taskID, likePrefixPattern(getTaskCollectionPositionPrefixWithTaskID(m.rootPath, taskID))}
 	if metaObj.CollectionID != 0 {
 		sqlStr += " AND collection_id = ?"
 		sqlArgs = append(sqlArgs, metaObj.CollectionID)
